@@ -164,7 +164,9 @@ def gen_case(c, g):
             containers = [(j, s_) for j in fr for s_, kd in SLOTS[desc["nodes"][j]["cls"]].items()
                           if kd.lstrip("o").startswith(("l", "d")) and kd not in ("int", "int!") and s_ not in READONLY
                           and kd.lstrip("o")[:1] in ("l", "d") and kd.lstrip("o") not in ("double",)]
-            if submitted and light and c.rng.random() < 0.25:
+            if fr and light and c.rng.random() < 0.2:
+                ops.append(dict(op="preheldappend", n=c.rng.choice(fr), ids=c.rng.sample(light, 1)))
+            elif submitted and light and c.rng.random() < 0.25:
                 ops.append(dict(op="initappend", n=c.rng.choice(submitted), ids=c.rng.sample(light, 1)))
             elif containers and c.rng.random() < 0.4:
                 j, s_ = c.rng.choice(containers)
@@ -185,7 +187,7 @@ def gen_case(c, g):
     return dict(desc=desc, ops=ops, n=n)
 
 
-NOT_MODELLED = ("jobpath", "copyconfig", "clone", "initappend")
+NOT_MODELLED = ("jobpath", "copyconfig", "clone", "initappend", "preheldappend")
 
 
 def g_sop(o):
@@ -257,13 +259,13 @@ def oracle(c, case, r):
     first = {o["n"]: a for o, a in zip(r["ops"][:n], r["answers"][:n])}
     for o, a in zip(r["ops"], r["answers"]):
         k = o["op"]
-        if k not in ("copyconfig", "clone", "initappend"):
+        if k not in ("copyconfig", "clone", "initappend", "preheldappend"):
             c.count("op:" + k + ("" if k in ("full", "raw", "jobpath", "seal") else (":frozen" if o["n"] in frozen else ":free")))
         if k in ("assign", "meta", "pre", "prefrom", "resubmit", "preappend", "copydeps", "inplace") and o["n"] in frozen and not a.startswith("rejected:"):
             c.violation(f"C14:attempt-accepted:{k}", f"a {k} attempt on a frozen configuration was not rejected",
                         dict(desc=case["desc"], ops=case["ops"], op=o, answer=a))
-        if k == "initappend":
-            c.count("op:initappend")
+        if k in ("initappend", "preheldappend"):
+            c.count("op:" + k)
         if k in ("copyconfig", "clone"):
             c.count("op:" + k + (":frozen" if o["n"] in frozen else ":free"))
             if a.startswith("copybad:"):
@@ -336,6 +338,11 @@ def run(c: Check):
                 c.nontrivial.add(json.dumps([x["desc"], x["ops"]], sort_keys=True))
             if not r["same_index"]:
                 c.count("index-shift")
+                continue
+            if len(r["after"]["nodes"]) != len(r["before"]["nodes"]):
+                # a seal of the history generated a configuration (GenC.gc): a node the model's heap does not have;
+                # the oracle above has judged the case, the correspondence leaves it out
+                c.count("configuration-generated-during-history")
                 continue
             if identgen.in_model(r["before"]) and identgen.in_model(r["after"]) and \
                     all(o.get("stored", {"t": "none"})["t"] not in ("baddict", "unknown") for o in r["ops"]):
